@@ -389,7 +389,7 @@ PROP = Property(
           "distinct feature set x thread-count class."),
     strategy=strategy,
     run_case=run_case,
-    budgets={"quick": 16000, "thorough": 480000},
+    budgets={"quick": 16000, "thorough": 120000},
     calibrate=calibrate,
     extra_tiers=[("live", live_tier)],
     assumptions=[
